@@ -82,6 +82,21 @@ def _run_ops(h, model, out, after_op):
                 if method != "max":
                     kw["method"] = METHODS[method]
                 model.update_sensors(n_sensors=n, threshold=thr, xy=(h.X.copy(), h.y.copy()) if xy else None, quiet=True, **kw)
+            elif op[0] == "updbad":
+                # an update whose refit data the classifier refuses (labels one short, a NaN measurement, a single class): the call ends in
+                # an exception the caller catches and the model stays in use
+                _, n, thr, method, how = op
+                kw = {}
+                if method != "max":
+                    kw["method"] = METHODS[method]
+                X2, y2 = h.X.copy(), h.y.copy()
+                if how == "labels_one_short":
+                    y2 = y2[:-1]
+                elif how == "nan_measurement":
+                    X2[0, :] = np.nan
+                else:
+                    y2 = np.full_like(y2, y2[0])
+                model.update_sensors(n_sensors=n, threshold=thr, xy=(X2, y2), quiet=True, **kw)
             elif op[0] == "updm":
                 _, k, refit = op
                 model.update_n_basis_modes(k, (h.X.copy(), h.y.copy()), quiet=True, **({} if refit is None else {"refit": refit}))
@@ -113,6 +128,8 @@ def to_request(h: SHistory, real_out):
         return None
     ops = []
     for op, (status, obs) in zip(h.ops, real_out):
+        if op[0] == "updbad":
+            break      # (same: a refit the classifier refuses is not modelled – compare the prefix)
         if op[0] in ("fit", "updm") and status != "ok":
             break      # failures inside the basis / classifier / solver stage of fit are not modelled: compare the prefix
         if not obs.get("fitted"):
